@@ -1,6 +1,6 @@
 (** C02: the decidable conditions that appear in the statements of the theorems
     (definitions only; the proofs are in [Proof/DenseGenFacts.v]). *)
-From DL Require Import Lib.Bytes Model.Lexer Model.DenseGen.
+From DL Require Import Lib.Bytes Model.Lexer Model.DenseGen Model.Precedence.
 Open Scope N_scope.
 
 (** juxtaposing byte [c] right after the pending token of [st] does not change the tokens:
@@ -195,3 +195,37 @@ Fixpoint adjacency_ok_from (k : cfg) (prev : bytes) (mg : bool) (items : list it
   end.
 
 Definition adjacency_ok (items : list item) : bool := adjacency_ok_from cfg0 [] false items.
+
+(** * parenthesisation (stage 2) *)
+
+(** the lowest limit among the [subexpr] calls still open when the text of [e] ends *)
+Fixpoint rp (e : expr) : N :=
+  match e with
+  | EAtom _ | EParen _ => 100
+  | EBin o _ r => N.min (rprio o) (rp r)
+  | EUn _ x => N.min UNARY_PRIORITY (rp x)
+  end.
+
+(** [wp e]: the explicit parentheses of [e] are enough for the reference priorities, i.e.
+    printing [e] without adding any parenthesis is unambiguous *)
+Fixpoint wp (e : expr) : bool :=
+  match e with
+  | EAtom _ => true
+  | EParen x => wp x
+  | EUn _ x => wp x && match x with EBin o _ _ => UNARY_PRIORITY <? lprio o | _ => true end
+  | EBin o l r =>
+    wp l && wp r
+    && match l with EBin o' _ _ => lprio o <=? lprio o' | _ => true end
+    && (lprio o <=? rp l)
+    && match r with EBin o' _ _ => rprio o <? lprio o' | _ => true end
+  end.
+
+(** [prec_ok P]: the finite condition on the dumped predicates: wherever they do NOT ask for
+    parentheses, the reference priorities do not need them.  (16 x 16 + 16 x 3 + 16 entries) *)
+Definition prec_ok (P : ptable) : bool :=
+  forallb (fun o =>
+    forallb (fun o' =>
+      (left_bin P o o' || ((lprio o <=? lprio o') && (lprio o <=? rprio o') && (lprio o <=? UNARY_PRIORITY)))
+      && (right_bin P o o' || (rprio o <? lprio o'))) binops
+    && forallb (fun u => left_un P o u || (lprio o <=? UNARY_PRIORITY)) unops) binops
+  && forallb (fun u => forallb (fun o' => un_bin P u o' || (UNARY_PRIORITY <? lprio o')) binops) unops.
